@@ -88,7 +88,17 @@ class GP:
             return {"ALL"}
         if pf.is_self_attr(it) and it.attr in self.groups and self.groups[it.attr][0] == "kernels":
             return {it.attr}
+        if isinstance(it, ast.BinOp) and isinstance(it.op, ast.Add):
+            a, b = self.kernel_iter(it.left), self.kernel_iter(it.right)
+            if a and b:
+                return a | b  # concatenation of kernel lists (possibly in another order than self.kernels)
+        if isinstance(it, ast.Call) and pf.call_name(it) in ("list", "tuple") and len(it.args) == 1:
+            return self.kernel_iter(it.args[0])
         return None
+
+    def covers_all(self, groups):
+        allg = {n for n, (b, _, _) in self.groups.items() if b == "kernels"}
+        return groups == {"ALL"} or (bool(allg) and groups is not None and allg <= groups)
 
 
 def loop_var(f):
@@ -561,7 +571,7 @@ def rule_fit(chk, gp):
     lp = stack_loops[0]
     kv = loop_var(lp)
     inst = "%s: covariance loop covers every kernel" % where
-    if gp.kernel_iter(lp.iter) == {"ALL"}:
+    if gp.covers_all(gp.kernel_iter(lp.iter)):
         chk.ok("fit-system", inst)
     else:
         chk.violation("fit-system", TR, where, pf.src(lp).split("\n")[0], lp.lineno,
@@ -627,11 +637,20 @@ def rule_fit(chk, gp):
     lists = [gr for x in pf.walk_no_nested(lp) for gr in [growth_local(x)] if gr]
     inst = "%s: per-kernel K^-1 Kmn stored once per kernel and consumed in kernel order" % where
     okl = False
+
+    def seq_of(loop):
+        it = loop.iter
+        if isinstance(it, ast.Call) and pf.call_name(it) == "enumerate" and it.args:
+            it = it.args[0]
+        while isinstance(it, ast.Call) and pf.call_name(it) in ("list", "tuple") and len(it.args) == 1:
+            it = it.args[0]
+        return pf.src(it)
+    mispaired = None
     for lname, call in lists:
         for lp2 in kloops:
             if lp2 is lp:
                 continue
-            if gp.kernel_iter(lp2.iter) == {"ALL"} and isinstance(lp2.iter, ast.Call) and isinstance(lp2.target, ast.Tuple):
+            if gp.covers_all(gp.kernel_iter(lp2.iter)) and isinstance(lp2.iter, ast.Call) and isinstance(lp2.target, ast.Tuple):
                 ivar = lp2.target.elts[0].id if isinstance(lp2.target.elts[0], ast.Name) else None
                 kv2 = loop_var(lp2)
                 for x in pf.walk_no_nested(lp2):
@@ -641,7 +660,16 @@ def rule_fit(chk, gp):
                                 and pf.src(y.value) == lname and pf.src(y.slice) == ivar]
                         if subs:
                             okl = True
-    if okl and len([1 for l, c in lists]) >= 1 and _once_in_block(lp, [c for l, c in lists]):
+                            if seq_of(lp) != seq_of(lp2):
+                                mispaired = (lname, lp2, x)
+    if mispaired is not None:
+        lname, lp2, x = mispaired
+        chk.violation("fit-system", TR, where, "positional pairing of %s" % lname, x.lineno,
+                      "%s is filled while iterating `%s` but consumed by position (`%s`) while iterating `%s`: entry i "
+                      "belongs to the i-th kernel of the first sequence, which is a different kernel whenever the two "
+                      "orders differ (e.g. a correlation kernel listed before an exchange kernel) -- the weights go to "
+                      "the wrong kernels" % (lname, seq_of(lp), pf.src(x)[:60], seq_of(lp2)), instance=inst)
+    elif okl and len([1 for l, c in lists]) >= 1 and _once_in_block(lp, [c for l, c in lists]):
         chk.ok("fit-system", inst)
     else:
         chk.violation("fit-system", TR, where, "kernel.alpha assignment", lp.lineno,
@@ -1108,6 +1136,25 @@ def rule_pairing(chk, gp):
             forms.setdefault(form, []).append(x)
         major = max(forms.items(), key=lambda kv: (len(kv[1]), "zip{" in kv[0]))[0]
         tag = "%s.add_reactions: loops over %s of one reaction" % (cname, "/".join(sorted(keys)))
+        lossy_forms = {}
+        for form, xs in forms.items():
+            if "zip{" in form:
+                continue
+            try:
+                tr = ast.parse(form, mode="eval")
+            except SyntaxError:
+                continue
+            hit = [pf.call_name(n) for n in ast.walk(tr) if isinstance(n, ast.Call) and pf.call_name(n) in LOSSY]
+            if hit:
+                lossy_forms[form] = (hit[0], xs)
+        for form, (ctor, xs) in sorted(lossy_forms.items()):
+            chk.violation("pairing", TR, cname + ".add_reactions", "stoichiometry through %s(...)" % ctor, xs[0].lineno,
+                          "the (system, count) pairs of a reaction are collapsed into `%s` before they are summed (%d loop(s)): "
+                          "a %s keeps ONE count per system id, so a reaction that lists the same system twice "
+                          "([A, A, C] / [-1, -1, 1]) loses a term and differs from its merged form ([A, C] / [-2, 1])"
+                          % (form[:90], len(xs), ctor), instance=tag + " :: multiset kept")
+        if lossy_forms and len(forms) == len(lossy_forms):
+            continue
         if len(forms) == 1:
             chk.ok("pairing", tag + " all iterate %s (%d loops)" % (major, len(group)))
             continue
